@@ -484,8 +484,22 @@ func verifC15Run(p verifC15Params, scale int) (res verifC15Result) {
 		go d.run()
 		return d
 	}
+	// Close() waits for the scheduler to stop; a scheduler that is blocked for good (e.g. waiting for
+	// an instance list that never comes) would hang the driver with it
+	closeDisp := func(d *dispatcher) {
+		done := make(chan struct{})
+		go func() {
+			d.Close()
+			close(done)
+		}()
+		select {
+		case <-done:
+		case <-time.After(20 * time.Second):
+			obs.count("closehang")
+		}
+	}
 	disp := newDisp()
-	defer func() { disp.Close() }()
+	defer func() { closeDisp(disp) }()
 
 	isFinal := func(st string) bool {
 		return st == string(arvados.ContainerStateComplete) || st == string(arvados.ContainerStateCancelled)
@@ -510,7 +524,7 @@ func verifC15Run(p verifC15Params, scale int) (res verifC15Result) {
 	deadline1 := start.Add(time.Duration(p.d1*scale) * time.Second)
 	for {
 		if p.restart > 0 && res.restarts == 0 && time.Since(start) >= restartAt {
-			disp.Close()
+			closeDisp(disp)
 			obs.mtx.Lock()
 			obs.destroyAt = map[string]time.Time{}
 			obs.mtx.Unlock()
